@@ -1,3 +1,38 @@
-(* C13 placeholder until the proofs are in *)
-From EC Require Import Base.Prelude Sii.Range Sii.Parse.
-Theorem c13_placeholder : True. Proof. exact I. Qed.
+(* C13 -- no EEPROM content can hang or crash the MainDevice. *)
+From EC Require Import Base.Prelude Base.Bytes Sii.Range Sii.RangeProofs Sii.Parse Sii.ParseProofs.
+Local Open Scope N_scope.
+
+(* For ANY EEPROM contents (p_byte is an arbitrary function from byte addresses to bytes), any
+   provider serving at least one word per access, both build modes, every query the hook exposes
+   (identity, name, description, size, mailbox, general, sync managers, FMMUs, FMMU mappings, both
+   PDO lists, any string index, station alias read and write): the query finishes with a value,
+   'absent' or an error - never a panic, never fuel exhaustion.  The fuel of every loop is an
+   explicit constant of the model (category walk: 32800 steps), so the number of device accesses is
+   bounded. *)
+Theorem c13_queries_total : forall md p q arg, prov_ok p -> fin (fst (query md p q arg)).
+Proof. exact query_total. Qed.
+Print Assumptions c13_queries_total.
+
+(* The category walk alone, from any word address: it ends whatever the contents. *)
+Theorem c13_walk_ends : forall fuel p want wa e,
+  (65536 - wa) / 2 < N.of_nat fuel -> fin (walk fuel p want wa e).
+Proof. exact walk_total. Qed.
+Print Assumptions c13_walk_ends.
+
+(* Reads on ANY range - absurd starts and lengths included - give bytes, end-of-data or an error. *)
+Theorem c13_read_exact_safe : forall p r n, (2 <= p_cs p)%nat ->
+  match range_read_exact p r n with
+  | Ok (Some b, r') => b = bytes_from p (r_pos r) n /\ r_pos r' = r_pos r + N.of_nat n /\ r_end r' = r_end r /\
+                       (n = 0%nat \/ N.of_nat n <= r_end r - r_pos r)
+  | Ok (None, r') => r_end r' = r_end r
+  | Err e => e = SOverrun
+  | Panic _ | Hang => False
+  end.
+Proof. exact range_read_exact_safe. Qed.
+Print Assumptions c13_read_exact_safe.
+
+(* The 16-bit sum of PDO entry lengths cannot overflow: 255 entries of 255 bits stay below 2^16. *)
+Theorem c13_pdo_bits : forall fuel md p r k bits, prov_ok p ->
+  (k <= fuel)%nat -> bits + 255 * N.of_nat k <= 65535 -> fin (pdo_entries fuel md p r k bits).
+Proof. exact pdo_entries_total. Qed.
+Print Assumptions c13_pdo_bits.
